@@ -150,6 +150,7 @@ def run(ck):
     ck.rule("C08.R9", "a Vec / Layered tree replaces its computed interest by the per-filter sum only if every part is per-layer-filtered (as C07.R7)", floor=2)
     ck.rule("C08.R10", "FilterFn / DynFilterFn builder steps keep the predicate and the other hint (same-named field carry-over, as C13.R6)", floor=3)
     ck.rule("C08.R11", "EnvFilter publishes `never` only when it has no span directives, and `always` only for what the static directives (or a stored span matcher) enable", floor=2)
+    ck.rule("C08.R12", "Layered decides `the value below me is the Registry` from that value's own type: a layer combined with and_then keeps its hint", floor=1)
     ck.rule("C08.R8", "level hints and thresholds are compared by a correct total order (as C19.R1/R2/R4)", floor=60)
     ck.rule("C08.R1", "And/Or/Not: interest table sound w.r.t. enabled; hint is a sound bound", floor=6)
     ck.rule("C08.R2", "Option<F>: None is neutral, Some forwards", floor=4)
@@ -165,6 +166,7 @@ def run(ck):
     from rulekit.query import builder_carry_over
     builder_carry_over(ck, F, "C08.R10", ("tracing_subscriber::filter::filter_fn::",))
     envfilter_interest(ck, F)
+    inner_is_registry_rule(ck, F)
     r1(ck, F)
     r2(ck, F)
     r3(ck, F)
@@ -717,3 +719,25 @@ def envfilter_interest(ck, F, rid="C08.R11"):
         ck.ok(rid, key, fn=rc.path)
     else:
         ck.bad(rid, key, where(rc.raw["sp"]), "always() is returned under %s" % always_bad[:2], fn=rc.path)
+
+
+def inner_is_registry_rule(ck, F, rid="C08.R12"):
+    """pick_level_hint returns the outer hint alone when `inner_is_registry` (the Registry has no opinion). The flag is
+    computed once, in Layered::new, by a TypeId comparison with Registry. It must compare the type of the `inner` *value*
+    (parameter 2): every Layered of an and_then tree has collector type parameter C = Registry, also the ones whose inner
+    value is another layer -- judged by C, that layer's hint is dropped and the published maximum is too low for it."""
+    b = F.body("tracing_subscriber::subscribe::layered::Layered::<A, B, C>::new")
+    if not ck.anchor(rid, "Layered::new", b):
+        return
+    inner_ty = str(b.raw["locals"][2]) if len(b.raw.get("locals", [])) > 2 else None
+    ofs = [t["callee"].get("targs", [None])[0] for bb, t in b.calls() if t["callee"].get("path") == "core::any::TypeId::of"]
+    reg = [x for x in ofs if x and x.endswith("registry::sharded::Registry")]
+    others = [x for x in ofs if x and not x.endswith("registry::sharded::Registry")]
+    key = "Layered::new compares the inner value's type with Registry"
+    if not reg:
+        ck.ok(rid, key, fn=b.path, detail="no Registry special case in this configuration")
+    elif others == [inner_ty]:
+        ck.ok(rid, key, fn=b.path, detail="TypeId::of::<%s>() == TypeId::of::<Registry>()" % inner_ty)
+    else:
+        ck.bad(rid, key, where(b.raw["sp"]), "inner_is_registry is computed from TypeId::of::<%s>, but the inner value has type %s: in an and_then tree over a Registry "
+               "the inner *layer* is taken for the registry and its level hint is ignored" % (others, inner_ty), fn=b.path)
